@@ -533,7 +533,22 @@ func (p *Path) kyberMethod(nat *Native, name string, args []Value, sig *types.Si
 			sc.tag = p.pickBytes(args[0], sc.grp.scalarLen)
 			return self()
 		case "String":
-			return hexOfBytes(sc.tag)
+			// kyber's mod.Int renders the MINIMAL big-endian bytes (big.Int.Bytes): leading zero bytes are
+			// dropped. Bound: only the first byte is examined symbolically (values below 2^(8*(len-1))); further
+			// constant zero bytes are dropped as well.
+			tag := sc.tag
+			for len(tag) > 0 && tag[0].IsConst() && tag[0].Val == 0 {
+				tag = tag[1:]
+			}
+			if len(tag) == len(sc.tag) && len(tag) > 1 && !tag[0].IsConst() {
+				if p.Fork(Eq(tag[0], BVC(0, 8))) {
+					tag = tag[1:]
+					for len(tag) > 0 && tag[0].IsConst() && tag[0].Val == 0 {
+						tag = tag[1:]
+					}
+				}
+			}
+			return hexOfBytes(tag)
 		case "MarshalBinary":
 			return Tuple{sliceOfBytes(append([]*Term(nil), sc.tag...)), Iface{}}
 		case "MarshalSize":
